@@ -71,13 +71,12 @@ def _trim(rows, n, tt, dt, trim, start, stt):
         return [r[:n] for r in rows]
     out = []
     s0 = int(stt / dt)
-    for r, t in zip(rows, tt):
-        sis = s0 - int(t / dt)
-        length = n if trim else None
-        if length is None:
-            return None
+    all_sis = [s0 - int(t / dt) for t in tt]
+    # untrimmed with a common start time: every row keeps its whole length behind the largest front padding
+    length = n if trim else n + max(max(all_sis), 0)
+    for r, sis in zip(rows, all_sis):
         o = []
-        for j in range(n):
+        for j in range(length):
             k = j - sis
             o.append(r[k] if 0 <= k < len(r) else 0.0)
         out.append(o)
@@ -258,7 +257,7 @@ def obligations(tier, seed):
     for dt in (0.1, 0.01):
         for tts in tt_sets:
             for nodal in (True, False):
-                for trim, start in ((False, False), (True, False), (True, True)):
+                for trim, start in ((False, False), (True, False), (True, True), (False, True)):
                     i += 1
                     if q and dt == 0.01 and i % 3:
                         continue
